@@ -35,7 +35,7 @@ ENV.pop("RUSTFLAGS", None)
 ENV.pop("CARGO_TARGET_DIR", None)
 ENV.pop("RUSTUP_TOOLCHAIN", None)
 
-TOTAL_MEM_GB = int(os.environ.get("VERIF_MEM_GB", "44"))
+TOTAL_MEM_GB = int(os.environ.get("VERIF_MEM_GB", "50"))
 MAX_PROCS = int(os.environ.get("VERIF_JOBS", "12"))
 
 
